@@ -462,6 +462,29 @@ def desc_kinds(d, out=None):
 
 
 # ------------------------------------------------------------------------------------------ helpers for outputs
+_PAD = [True]
+
+
+def ev(fn, arr, *args):
+    """evaluate an elementwise map of the grid under test on arr (c, N) -> np.ndarray (c', N, ...).  With padding
+    enabled the batch axis is filled up to a power of two with copies of the first column (every map acts
+    elementwise on the batch axes, the surplus results are dropped): the eagerly dispatched jax kernels are then
+    compiled for few distinct shapes.  Unpadded evaluation is exercised by a share of the recipes."""
+    arr = np.asarray(arr)
+    n = arr.shape[1]
+    m = n
+    if _PAD[0]:
+        m = 8
+        while m < n:
+            m *= 2
+    if m > n:
+        arr = np.concatenate([arr, np.repeat(arr[:, :1], m - n, axis=1)], axis=1)
+    out = np.asarray(fn(arr, *args))
+    if m > n and out.ndim >= 2 and out.shape[1] == m:
+        out = out[:, :n]
+    return out
+
+
 def as_index(x, shape, kind):
     """NIFTy index output -> int64 ndarray of the given shape (values must be integers; dtype is free)"""
     a = np.asarray(x)
@@ -490,7 +513,7 @@ def first_bad(mask):
 
 
 def volumes(ga, idx, kind):
-    v = np.asarray(ga.index2volume(idx), dtype=np.float64)
+    v = np.asarray(ev(ga.index2volume, idx), dtype=np.float64)
     n = idx.shape[1:]
     try:
         v = np.broadcast_to(v, (1,) + tuple(n))
@@ -515,20 +538,20 @@ def verify_flat_maps(grid, ref, dd):
         fa = grid.at(l)
         iu = un.all_indices(l)
         n = iu.shape[1]
-        f = as_index(fa.index2flatindex(iu), (1, n), "index2flatindex")
+        f = as_index(ev(fa.index2flatindex, iu), (1, n), "index2flatindex")
         srt = np.sort(f[0])
         if not np.array_equal(srt, np.arange(n)):
             raise Violation("index2flatindex_not_bijection_onto_range",
                             f"level {l} shape {un.shape(l)}: sorted flat ids {srt[:12].tolist()}.. {dd}")
-        back = as_index(fa.flatindex2index(f), iu.shape, "flatindex2index")
+        back = as_index(ev(fa.flatindex2index, f), iu.shape, "flatindex2index")
         if not np.array_equal(back, iu):
             b = first_bad((back != iu).any(axis=0))
             raise Violation("flatindex2index_of_index2flatindex", f"level {l}: {iu[:, b[0]].tolist()} -> "
                             f"{int(f[0, b[0]])} -> {back[:, b[0]].tolist()} {dd}")
         gl = np.arange(n, dtype=np.int64)[None]
-        st_ = as_index(fa.flatindex2index(gl), iu.shape, "flatindex2index")
+        st_ = as_index(ev(fa.flatindex2index, gl), iu.shape, "flatindex2index")
         in_range(st_, un.shape(l), "flatindex2index")
-        f2 = as_index(fa.index2flatindex(st_), (1, n), "index2flatindex")
+        f2 = as_index(ev(fa.index2flatindex, st_), (1, n), "index2flatindex")
         if not np.array_equal(f2, gl):
             b = first_bad(f2[0] != gl[0])
             raise Violation("index2flatindex_of_flatindex2index", f"level {l}: {b[0]} -> {st_[:, b[0]].tolist()} -> "
@@ -541,15 +564,16 @@ def verify_flat_maps(grid, ref, dd):
         for l in range(ref.depth + 1):
             sa = grid.at(l)
             a = np.arange(len(ref.maps[l]), dtype=np.int64)[None]
-            f = as_index(sa.arrayindex2flatindex(a), a.shape, "arrayindex2flatindex")
+            f = as_index(ev(sa.arrayindex2flatindex, a), a.shape, "arrayindex2flatindex")
             require(np.array_equal(f[0], ref.maps[l]), "arrayindex2flatindex", f"level {l}: {f[0][:10]} vs mapping {ref.maps[l][:10]}")
-            b = as_index(sa.flatindex2arrayindex(f), a.shape, "flatindex2arrayindex")
+            b = as_index(ev(sa.flatindex2arrayindex, f), a.shape, "flatindex2arrayindex")
             require(np.array_equal(b, a), "flatindex2arrayindex_roundtrip", f"level {l} {dd}")
 
 
 def check_neighborhood(ga, ref, l, idx, w, dd):
     n = idx.shape[1]
-    got = np.asarray(ga.neighborhood(idx, tuple(int(x) for x in w)))
+    raw = ev(ga.neighborhood, idx, tuple(int(x) for x in w))
+    got = raw
     exp0, free = ref.nbr(l, idx, w, 0)
     if isinstance(ref, (FlatRef, SparseRef)):
         want_shape = (1, n, int(np.prod(w)))
@@ -579,16 +603,16 @@ def check_neighborhood(ga, ref, l, idx, w, dd):
             b = first_bad(~okr)
             raise Violation("neighborhood:out_of_range", f"level {l} index {idx[:, b[1]].tolist()} window {list(w)}: "
                             f"{got[:, b[1]].reshape(got.shape[0], -1).tolist()} {dd}")
-    return int(free.sum())
+    return int(free.sum()), raw
 
 
-def check_batch_shapes(ga, ref, l, idx, w, probes, dd, res):
+def check_batch_shapes(ga, ref, l, idx, w, probes, dd, res, mode):
     """all maps act elementwise on the batch axes: a 1-D index (the callers' convention) and an index array of
     the level's mgrid shape give the rows of the (ndim, N) evaluation"""
     nd, n = idx.shape
     shp = ref.shape(l)
     forms = [("single", int(p) % n) for p in probes]
-    if len(shp) >= 2:
+    if len(shp) >= 2 and mode == "all":
         forms.append(("mgrid", None))
     for name, pos in forms:
         if name == "single":
@@ -651,11 +675,11 @@ def check_grid(grid, ref, rec, with_batch=True):
         stats["maxsize"] = max(stats["maxsize"], n)
         res = {}
         # --- index <-> coordinate round trip
-        c = np.asarray(ga.index2coord(idx))
+        c = ev(ga.index2coord, idx)
         require(c.ndim == 2 and c.shape[1] == n, "index2coord:shape", f"level {l}: {c.shape} for index {idx.shape} {dd}")
         require(bool(np.all(np.isfinite(c))), "index2coord:not_finite", f"level {l} {dd}")
         res["coord"] = c
-        j = as_index(ga.coord2index(c), idx.shape, "coord2index")
+        j = as_index(ev(ga.coord2index, c), idx.shape, "coord2index")
         if not np.array_equal(j, idx):
             b = first_bad((j != idx).any(axis=0))
             raise Violation("coord2index_of_index2coord", f"level {l} shape {shp}: index {idx[:, b[0]].tolist()} -> coord "
@@ -665,9 +689,10 @@ def check_grid(grid, ref, rec, with_batch=True):
         res["vol"] = v
         # --- neighbourhoods
         for wi, w in enumerate(windows):
-            stats["free"] += check_neighborhood(ga, ref, l, idx, w, dd)
-        if windows:
-            res["nbr"] = np.asarray(ga.neighborhood(idx, tuple(int(x) for x in windows[0])))
+            nfree, raw = check_neighborhood(ga, ref, l, idx, w, dd)
+            stats["free"] += nfree
+            if wi == 0:
+                res["nbr"] = raw
         lev.append(dict(ga=ga, idx=idx, vol=v, res=res))
     # --- cross-level relations
     for l in range(depth):
@@ -683,7 +708,7 @@ def check_grid(grid, ref, rec, with_batch=True):
         stats["refined"] += nr
         stats["padded"] += lev[l]["idx"].shape[1] - nr
         k = ref.nchildren(l)
-        ch_raw = np.asarray(ga.children(rr))
+        ch_raw = ev(ga.children, rr)
         require(ch_raw.shape[:2] == (nd, nr) and int(np.prod(ch_raw.shape[2:])) == k, "children:shape",
                 f"level {l}: {ch_raw.shape} for {nr} indices with {k} children each {dd}")
         ch = as_index(ch_raw.reshape(nd, nr, k), (nd, nr, k), "children")
@@ -708,7 +733,7 @@ def check_grid(grid, ref, rec, with_batch=True):
                             f"duplicates {dup[:6].tolist()} missing {miss[:6].tolist()} {dd}")
         # parent of every child
         flatc = ch.reshape(nd, -1)
-        par = as_index(gb.parent(flatc), flatc.shape, "parent")
+        par = as_index(ev(gb.parent, flatc), flatc.shape, "parent")
         want = np.repeat(rr, k, axis=1)
         if not np.array_equal(par, want):
             b = first_bad((par != want).any(axis=0))
@@ -717,13 +742,14 @@ def check_grid(grid, ref, rec, with_batch=True):
         # parent of every index of the next level (the children cover it, so this is the same set; evaluated in
         # the level's own enumeration order)
         idn = lev[l + 1]["idx"]
-        pall = as_index(gb.parent(idn), idn.shape, "parent")
+        pall_raw = ev(gb.parent, idn)
+        pall = as_index(pall_raw, idn.shape, "parent")
         pexp = ref.parent(l + 1, idn)
         if not np.array_equal(pall, pexp):
             b = first_bad((pall != pexp).any(axis=0))
             raise Violation("parent_closed_form", f"level {l + 1} shape {shpn}: index {idn[:, b[0]].tolist()} has parent "
                             f"{pall[:, b[0]].tolist()} expected {pexp[:, b[0]].tolist()} {dd}")
-        lev[l + 1]["res"]["parent"] = np.asarray(gb.parent(idn))
+        lev[l + 1]["res"]["parent"] = pall_raw
         # volumes
         vp = lev[l]["vol"][ref.lin(l, rr)]
         vc = lev[l + 1]["vol"][lin].sum(axis=1)
@@ -735,11 +761,11 @@ def check_grid(grid, ref, rec, with_batch=True):
         t0, t1 = float(lev[l]["vol"].sum()), float(lev[l + 1]["vol"].sum())
         require(t1 <= t0 * (1 + 1e-12), "level_total_volume_grows", f"level {l}: {t0!r} -> level {l + 1}: {t1!r} {dd}")
         if rr.shape[1] == lev[l]["idx"].shape[1]:
-            lev[l]["res"]["children_all"] = np.asarray(ga.children(lev[l]["idx"]))
+            lev[l]["res"]["children_all"] = ch_raw if np.array_equal(rr, lev[l]["idx"]) else ev(ga.children, lev[l]["idx"])
     if with_batch:
         for l in range(depth + 1):
             check_batch_shapes(lev[l]["ga"], ref, l, lev[l]["idx"], windows[0] if windows else None,
-                               probes, dd, lev[l]["res"])
+                               probes, dd, lev[l]["res"], "all" if with_batch is True else with_batch)
     return stats
 
 
@@ -749,6 +775,8 @@ def _classes(rec, ref, stats):
     kinds = desc_kinds(d)
     cl = ["kind:" + kinds[0]] + sorted({"has:" + k for k in kinds[1:]})
     cl.append(f"depth{ref.depth}")
+    if d.get("depth", 0) is None or d.get("grid", {}).get("depth", 0) is None:
+        cl.append("factory_chosen_depth")
     base = ref
     while isinstance(base, (FlatRef, SparseRef)):
         base = base.fl if isinstance(base, SparseRef) else base.under
@@ -777,6 +805,7 @@ def _classes(rec, ref, stats):
 
 def check_desc(rec):
     _TIER[0] = rec.get("tier", "quick")
+    _PAD[0] = bool(rec.get("pad", True))
     grid, ref = build(rec["desc"])
     stats = check_grid(grid, ref, rec, with_batch=rec.get("batch", True))
     nontrivial = ref.depth >= 1 and stats["children"] > stats["refined"] >= 2
@@ -868,6 +897,25 @@ def axis_grid(draw, depth, max0, maxsize, allow=("grid", "open", "simple", "log"
         if kind == "blog":
             f = draw(st.sampled_from([0.0, 0.125, 0.25, 0.5, 0.75]))
             d["rlin"] = d["rmin"] + f * (d["rmax"] - d["rmin"])
+    return d
+
+
+@st.composite
+def auto_depth_grid(draw):
+    """SimpleOpenGrid family with depth=None: the factory derives the depth from min_shape and desired_size0"""
+    kind = draw(st.sampled_from(["simple", "log", "blog"]))
+    nd = 1 if kind != "simple" else draw(st.integers(1, 2))
+    ms = [draw(st.integers(2, 40 if nd == 1 else 14)) for _ in range(nd)]
+    d = {"k": kind, "min_shape": ms, "window": draw(st.sampled_from([1, 2, 3, 3, 4, 5])),
+         "splits": draw(st.sampled_from([2, 2, 3])), "depth": None, "size0": draw(st.sampled_from([2, 4, 8, 16, 128])),
+         "dist": None}
+    if kind == "simple":
+        d["dist"] = draw(st.sampled_from([None, 0.5, 2.0]))
+    else:
+        d["rmin"] = draw(st.sampled_from([0.25, 1.0, 3.0]))
+        d["rmax"] = d["rmin"] * draw(st.sampled_from([2.0, 10.0, 64.0]))
+        if kind == "blog":
+            d["rlin"] = d["rmin"] + draw(st.sampled_from([0.0, 0.25, 0.5])) * (d["rmax"] - d["rmin"])
     return d
 
 
@@ -974,16 +1022,23 @@ def dense_recipes(draw, tier):
     depth = draw(st.sampled_from([0, 1, 1, 2, 2, 2, 3, 3]))
     wrap = draw(st.sampled_from(["none", "none", "none", "serial", "serial", "nest", "sparse"]))
     allow = ("grid",) if wrap in ("nest", "sparse") else ("grid", "open", "simple", "log", "blog")
-    top = draw(st.sampled_from(["axis", "axis", "mgrid", "mgrid"]))
-    if top == "axis":
+    top = draw(st.sampled_from(["axis", "axis", "axis", "mgrid", "mgrid", "mgrid", "auto"]))
+    if top == "auto" and len(allow) == 1:
+        top = "axis"
+    if top == "auto":
+        base = draw(auto_depth_grid())
+    elif top == "axis":
         base = draw(axis_grid(depth, 6, maxsize, allow=allow))
     else:
         nc = draw(st.integers(2, 3))
         per = int(round(maxsize ** (1.0 / nc)))
         base = {"k": "mgrid", "grids": [draw(axis_grid(depth, 4, per, allow=allow, maxdim=2 if nc == 2 else 1))
                                         for _ in range(nc)]}
-    base = fit(base, maxsize)
-    depth = len(level_sizes(base)) - 1
+    if top == "auto":
+        depth = 3                      # (only bounds the length of `sel`; the factory chooses the depth)
+    else:
+        base = fit(base, maxsize)
+        depth = len(level_sizes(base)) - 1
     d = base
     if wrap in ("serial", "nest"):
         d = {"k": "flat", "grid": base, "ordering": wrap}
@@ -994,7 +1049,8 @@ def dense_recipes(draw, tier):
     nw = draw(st.integers(1, 2))
     windows = [[draw(st.sampled_from([1, 2, 3, 3, 3, 4, 5])) for _ in range(na)] for _ in range(nw)]
     return {"desc": d, "windows": windows, "probes": draw(st.lists(st.integers(0, 9999), min_size=1, max_size=2)),
-            "tier": tier}
+            "tier": tier, "pad": draw(st.sampled_from([True, True, True, False])),
+            "batch": draw(st.sampled_from(["single", "single", "all"]))}
 
 
 def _wrap_variants(base, periodic):
@@ -1007,24 +1063,46 @@ def _wrap_variants(base, periodic):
 SWEEP_SHARDS = 8
 
 
-def _cluster_for_shards(cases, shards):
-    """the runner hands shard s the cases [s::n]; re-order so that each shard receives a contiguous block of the
-    natural enumeration order (similar array shapes => the eagerly compiled jax kernels are reused)"""
+def _cluster_for_shards(families, shards):
+    """the runner hands shard s the cases [s::n].  Lay the list out so that every family of similar grids (similar
+    array shapes => the eagerly compiled jax kernels are reused) is dealt to its own group of shards and is
+    started at once, in a fixed pseudo-random order (so that a run cut short by the time budget on a busy machine
+    has still seen every family and every depth)"""
+    import hashlib
     n = max(1, min(shards, int(os.environ.get("VERIF_NPROC", "16"))))
-    m = -(-len(cases) // n)
-    blocks = [cases[i * m:(i + 1) * m] for i in range(n)]
-    out = []
-    for j in range(m):
-        row = [blk[j] for blk in blocks if j < len(blk)]
-        if len(row) < n:            # the last block is shorter: the remaining cases go to the tail
-            out.extend(row)
-            continue
-        out.extend(row)
+    fams = [sorted(f, key=lambda r: hashlib.sha1(repr(r["desc"]).encode()).hexdigest()) for f in families if f]
+    total = sum(len(f) for f in fams)
+    lists = [[] for _ in range(n)]
+    if n < len(fams):
+        merged = [r for f in fams for r in f]
+        merged.sort(key=lambda r: hashlib.sha1(repr(r["desc"]).encode()).hexdigest())
+        return merged
+    alloc = [max(1, int(round(n * len(f) / total))) for f in fams]
+    while sum(alloc) > n:
+        alloc[int(np.argmax(alloc))] -= 1
+    while sum(alloc) < n:
+        alloc[int(np.argmax([len(f) / a_ for f, a_ in zip(fams, alloc)]))] += 1
+    first = 0
+    for f, a_ in zip(fams, alloc):
+        for j, r in enumerate(f):
+            lists[first + j % a_].append(r)
+        first += a_
+    want = [len(range(s_, total, n)) for s_ in range(n)]
+    spill = []
+    for s_ in range(n):
+        while len(lists[s_]) > want[s_]:
+            spill.append(lists[s_].pop())
+    for s_ in range(n):
+        while len(lists[s_]) < want[s_]:
+            lists[s_].append(spill.pop())
+    out = [None] * total
+    for s_ in range(n):
+        out[s_::n] = lists[s_]
     return out
 
 
 def sweep_cases(tier, seed):
-    out = []
+    fam_p, fam_o, fam_2 = [], [], []
     wins1 = [[3], [2], [5]]
     top_p, top_o = (4, 5) if tier == "quick" else (6, 8)
     # 1-D periodic
@@ -1033,7 +1111,7 @@ def sweep_cases(tier, seed):
             for sp in itertools.product([1, 2, 3, 4], repeat=depth):
                 base = {"k": "grid", "shape0": [n0], "splits": [[s] for s in sp]}
                 for i, d in enumerate(_wrap_variants(base, True)):
-                    out.append({"desc": d, "windows": [wins1[(n0 + depth + i) % 3], [4]], "probes": [n0], "tier": tier,
+                    fam_p.append({"desc": d, "windows": [wins1[(n0 + depth + i) % 3], [4]], "probes": [n0], "tier": tier,
                                 "batch": i == 0})
     # 1-D open
     for n0 in range(1, top_o + 1):
@@ -1050,7 +1128,7 @@ def sweep_cases(tier, seed):
                         continue
                     base = {"k": "open", "shape0": [n0], "splits": [[s_] for s_ in sp], "padding": [[p_] for p_ in pd]}
                     for i, d in enumerate(_wrap_variants(base, False)):
-                        out.append({"desc": d, "windows": [wins1[(n0 + i) % 3]], "probes": [n0 + 1], "tier": tier,
+                        fam_o.append({"desc": d, "windows": [wins1[(n0 + i) % 3]], "probes": [n0 + 1], "tier": tier,
                                     "batch": i == 0})
     # 2-D periodic, one level
     for s0 in itertools.product([1, 2, 3], repeat=2):
@@ -1060,9 +1138,9 @@ def sweep_cases(tier, seed):
             if tier == "quick":      # plain + one of the two flat orderings (alternating)
                 var = [var[0], var[1 + (s0[0] + s0[1] + sp[0] + sp[1]) % 2]]
             for i, d in enumerate(var):
-                out.append({"desc": d, "windows": [[3, 2] if i % 2 else [2, 3]], "probes": [s0[0] + 2 * s0[1]], "tier": tier,
+                fam_2.append({"desc": d, "windows": [[3, 2] if i % 2 else [2, 3]], "probes": [s0[0] + 2 * s0[1]], "tier": tier,
                             "batch": i == 0 and (s0[0] + sp[1]) % 2 == 0})
-    return _cluster_for_shards(out, SWEEP_SHARDS)
+    return _cluster_for_shards([fam_p, fam_o, fam_2], SWEEP_SHARDS)
 
 
 def hp_cases(tier, seed):
@@ -1108,7 +1186,7 @@ def hp_cases(tier, seed):
         w1 = [1 if h else (2 + (i % 3)) for h in hpa]
         assert len(w9) == na
         out.append({"desc": d, "windows": [w9, w1] if i % 2 == 0 else [w9], "probes": [7 * i + 1], "tier": tier,
-                    "batch": i % 3 == 0})
+                    "batch": "all" if i % 5 == 0 else ("single" if i % 2 == 0 else False)})
     return out
 
 
@@ -1125,7 +1203,7 @@ SUBS = [
              "2..5; all indices of all levels; non-trivial = depth>=1, >=2 refined indices, >=2 children per index"),
     Sub(name="dense_random", check=check_desc, strategy=dense_recipes, quick=420, thorough=20000, shards=12, jax=True,
         rule="random Grid/OpenGrid (1-3 axes)/SimpleOpenGrid (1-2 axes, windows 1..5, scalar/per-axis/per-level "
-             "splits, distances)/LogGrid/BrokenLogGrid, MGrid products of 2-3 of them, wrapped as FlatGrid serial/"
+             "splits, distances, given or factory-chosen depth)/LogGrid/BrokenLogGrid, MGrid products of 2-3 of them, wrapped as FlatGrid serial/"
              "nest or SparseGrid (valid mappings from the nest rule); depth 0..3, <=~500 indices per level; 1-2 "
              "window tuples with entries 1..5; all indices of all levels; non-trivial as above"),
     Sub(name="healpix", check=check_desc, cases=hp_cases, exhaustive=False, shards=6, jax=True, budget_quick=200.0,
